@@ -363,7 +363,8 @@ class FrontendStream(Stream):
     def compare(self, case, r, m):
         ok = {k: sorted(set(v)) for k, v in m["bazel"].items()} == r["bazel"]
         if "cli" in r:
-            ok = ok and m["cli"] == r["cli"]
+            # compile_main merges the parsed values through an OrderedDict (order-preserving de-duplication)
+            ok = ok and {k: list(dict.fromkeys(v)) for k, v in m["cli"].items()} == r["cli"]
         return ok
 
     def flags(self, case, r):
